@@ -315,7 +315,7 @@ def run(cx: Cx):
     cx.floor('deregister_component success paths', n, 2)
     psites = cx.effects.sites_of(PLOC)
     for s in psites:
-        if s.owner_q in (reg.qualname, dereg.qualname):
+        if s.owned_within((reg.qualname, dereg.qualname)):
             continue
         v = s.ev.data.get('value')
         if s.owner_q == CORE + 'SystemManager.__init__' and s.kind == 'rebind' and isinstance(v, Fresh) and v.kind == 'dict' and not v.items:
